@@ -66,9 +66,13 @@ def mk_cmp(op: str, l: Term, r: Term) -> Term:
     if l[0] == "const" and r[0] == "const" and op in ("==", "!="):
         return ("const", (l[1] == r[1]) if op == "==" else (l[1] != r[1]))
     if op == ">":
-        return ("cmp", "<", r, l)
+        return mk_cmp("<", r, l)
     if op == ">=":
-        return ("cmp", "<=", r, l)
+        return mk_cmp("<=", r, l)
+    if op == "<=" and r == ("K", "FLOAT_MAX") and l[0] != "const":
+        return ("const", True)   # x <= FLOAT_MAX: nothing a rule speaks about (costs, distances of finite data) exceeds it
+    if op == "<" and l == ("K", "FLOAT_MAX") and r[0] != "const":
+        return ("const", False)  # FLOAT_MAX < x
     if op in ("==", "!="):
         a, b = sorted([l, r], key=tkey)
         return ("cmp", op, a, b)
